@@ -209,7 +209,7 @@ func TestVerifC04(t *testing.T) {
 // never violations.
 func c04ShortTTL(t *testing.T, run *verifkit.Run, base string) {
 	const ttl = 6 * time.Second
-	n := run.N(40, 640)
+	n := run.N(40, 320)
 	type tc struct {
 		Age     string `json:"age"`
 		A       string `json:"a"`
@@ -295,7 +295,7 @@ func c04Seq(t *testing.T, run *verifkit.Run, base string) {
 	// caches: under the race detector a fresh 64 MiB allocation per request
 	// and per P costs ~10x the CPU. This stream is sequential anyway.
 	defer runtime.GOMAXPROCS(runtime.GOMAXPROCS(1))
-	n := run.N(500, 20000)
+	n := run.N(500, 6000)
 	caseNo := 0
 	run.Cases("seq", n, func(i int, rng *verifkit.Rand) {
 		caseNo++
@@ -834,7 +834,7 @@ func c04Sched(t *testing.T, run *verifkit.Run, base string) {
 		sched string
 	}
 	var items []item
-	maxEnum := run.N(130, 6000)
+	maxEnum := run.N(130, 1500)
 	seedRng := verifkit.CaseRand(run.Seed(), "sched-gen", 0)
 	for _, c := range combos {
 		// nominal lengths (upper bounds; an exhausted schedule lets whoever is parked run)
@@ -1120,7 +1120,7 @@ func c04LinModel() porcupine.Model {
 }
 
 func c04Lin(t *testing.T, run *verifkit.Run, base string) {
-	n := run.N(60, 1500)
+	n := run.N(60, 600)
 	caseNo := 0
 	var clock int64
 	run.Cases("lin", n, func(i int, rng *verifkit.Rand) {
